@@ -219,6 +219,12 @@ func (sc *serverConn) Serve() error {
 		// itself is never closed: anything still holding a frame would panic
 		// trying to hand it over.
 		close(sc.writeStop)
+
+		// The write loop may be inside a Write that a peer which has stopped
+		// reading will never let finish, in which case it never sees writeStop,
+		// never closes the socket, and the read loop never returns either.
+		// Give the drain the time teardown allows it and no more.
+		_ = sc.c.SetWriteDeadline(time.Now().Add(writeDrainTimeout))
 	}()
 
 	defer func() {
